@@ -298,8 +298,8 @@ Proof.
   pose proof (plookup_wr h (p_fn pi) stt Hf) as Hr.
   assert (G1 : forall ns, good h (add_notes (add_log s (ETick pid stt (clock s))) ns)).
   { intro ns. apply good_notes. apply good_log; try exact I; try discriminate; try assumption. }
-  destruct (plookup (p_fn pi) stt) as [ns st'|ns|ns e|ns e v]; simpl in *; try discriminate.
-  - apply good_enq; [reflexivity|]. apply good_pers; [|apply G1].
+  destruct (plookup (p_fn pi) stt) as [ns sl st'|ns|ns e|ns e v]; simpl in *; try discriminate.
+  - apply good_enq; [reflexivity|]. apply good_pers; [|apply good_clock; apply G1].
     apply Forall_set_nth; [exact Hf|]. destruct (G1 ns) as (_ & B & _). exact B.
   - apply resched_disposed_good. apply G1.
   - set (s2 := add_log (add_log (add_notes (add_log s (ETick pid stt (clock s))) ns) (ERaise e)) (EHandler e)).
